@@ -59,6 +59,11 @@ static void eb_mul_sim_kbltz(eb_t r, const eb_t p, const bn_t k, const eb_t q,
 	eb_t t0[1 << (RLC_WIDTH - 2)];
 	eb_t t1[1 << (RLC_WIDTH - 2)];
 	size_t l, l0, l1;
+	bn_t ord, k0, k1;
+
+	bn_null(ord);
+	bn_null(k0);
+	bn_null(k1);
 
 	for (i =  0; i < (1 << (RLC_WIDTH - 2)); i++) {
 		eb_null(t0[i]);
@@ -102,9 +107,24 @@ static void eb_mul_sim_kbltz(eb_t r, const eb_t p, const bn_t k, const eb_t q,
 			w = RLC_WIDTH;
 		}
 
+		bn_new(ord);
+		bn_new(k0);
+		bn_new(k1);
+
+		/* [k]P depends on k modulo the group order h * r only, and the expansion
+		 * of a scalar below it fits the array (bn_rec_tnaf does not check the
+		 * length of what it writes). */
+		eb_curve_get_ord(ord);
+		eb_curve_get_cof(k0);
+		bn_mul(ord, ord, k0);
+		bn_abs(k0, k);
+		bn_mod(k0, k0, ord);
+		bn_abs(k1, m);
+		bn_mod(k1, k1, ord);
+
 		l0 = l1 = RLC_FB_BITS + 8;
-		bn_rec_tnaf(tnaf0, &l0, k, u, RLC_FB_BITS, w);
-		bn_rec_tnaf(tnaf1, &l1, m, u, RLC_FB_BITS, RLC_WIDTH);
+		bn_rec_tnaf(tnaf0, &l0, k0, u, RLC_FB_BITS, w);
+		bn_rec_tnaf(tnaf1, &l1, k1, u, RLC_FB_BITS, RLC_WIDTH);
 
 		l = RLC_MAX(l0, l1);
 		_k = tnaf0 + l - 1;
@@ -149,6 +169,9 @@ static void eb_mul_sim_kbltz(eb_t r, const eb_t p, const bn_t k, const eb_t q,
 		RLC_THROW(ERR_CAUGHT);
 	}
 	RLC_FINALLY {
+		bn_free(ord);
+		bn_free(k0);
+		bn_free(k1);
 		if (!g) {
 			for (i =  0; i < (1 << (RLC_WIDTH - 2)); i++) {
 				eb_free(t0[i]);
